@@ -18,8 +18,7 @@ META = {
     'design_ref': 'DESIGN.md section 4 / C03',
     'note': ('Trusted: Coq kernel + vm_compute; translator tools/gen_limits.py; harness h_filter (public API only, no hook). '
              'Modelled, not verified: BTreeSet::range / DashMap lookups as list filters and association lookups; keys as Z '
-             '(Text keys through an order-preserving encoding); errors (unknown index, key type mismatch) are outside the '
-             'model; the candidate list of a search (BM25/HNSW/RRF) is an input of the model, taken from the real index.'),
+             '(Text keys through an order-preserving encoding); the candidate list of a search (BM25/HNSW/RRF) is an input of the model, taken from the real index.'),
     'technique': 'Coq proof (nested induction over filter / range-query trees, canonical sorted lists) + translator-generated '
                  'facts + differential model/impl run with a set-algebra oracle',
 }
@@ -35,9 +34,22 @@ def run(ck):
                '(U64 with duplicates and missing values, Text, U64 array, I64 with negatives); random filter trees to depth '
                '4 (quick) / 6 (thorough) over Eq/Gt/Ge/Lt/Le/Between (incl. inverted)/Include (incl. duplicates)/And/Or/Not '
                'at both levels, plus And[f] / Or[f] / Not(Not f) re-shapings; limits None, 0, 1, 2, n+1, a cutting limit, '
-               'MAX, MAX+1; query_ids, query_last_ids, query_all_ids, search_ids (filter only and over BM25 candidates). '
+               'MAX, MAX+1 and every limit 0..n+1 for collections of <= 8 documents; query_ids, query_last_ids, query_all_ids, search_ids '
+               '(filter only and over BM25 candidates); an error stream (unknown index, unconvertible keys, alone and inside And/Or/Not) '
+               'and a budget stream at and one past each MAX_FILTER_* / include bound. '
                'non-trivial = a distinct (collection, filter, entry, limit) whose limit is smaller than the match set')
-    ck.translate()
+    # only Gen_Limits concerns this property: regenerate exactly that file (a lost anchor of another
+    # property's generator is that property's broken obligation, not this one's)
+    import sys
+    import vlib
+    with vlib.Lock('coq'):
+        rc_t, out_t, _ = vlib.sh([sys.executable, vlib.ROOT + '/tools/translate.py', '--repo', vlib.REPO,
+                                  '--out', vlib.COQ + '/gen', '--only', 'gen_limits'], timeout=300)
+    lost = [l for l in out_t.splitlines() if l.startswith('LOST-ANCHOR')]
+    ck.ob('translator regenerates gen/Gen_Limits.v from /repo working tree', rc_t == 0 and not lost, 'generated',
+          out_t if (rc_t != 0 or lost) else '')
+    ck.trust('translator /verif/tools/translate.py + tools/gen_limits.py (regex extraction of limits, operand limit arguments, '
+             'leaf form and entry-point orders from Rust source)')
     ck.coq(['Filter/Props.v', 'Filter/PropsFixed.v'], ['Filter', 'gen'], model_targets=['Filter/Run.vo'])
     ck.trust('model premise HashOrder: an FxHashSet iterates each of its elements exactly once, in some order '
              '(the theorems hold for every order; the runner uses ascending order)',
@@ -45,8 +57,8 @@ def run(ck):
              '(checked on every dumped collection by wf_coll; C03_wf_check_sound)')
     ck.assume('BTreeSet::range and DashMap::get behave as a filter over the ascending key list and an association lookup',
               'keys are modelled as integers; Text keys reach the model through an order-preserving encoding',
-              'errors (unknown index name, key of the wrong type, over-budget filters) are not part of the model; '
-              'the generator stays inside the complexity budget',
+              'errors are modelled as the first error in evaluation order (eval_err) beside the value function (eval); '
+              'a leaf with a key the index cannot convert is the model constructor FFieldBad',
               'the candidate list of a search is the real BM25 index\'s answer, handed to the model as an input')
     binary = ck.cargo('h_filter')
     if not binary:
@@ -64,49 +76,98 @@ def run(ck):
     model_rows = [r for r in rows if r['kind'] == 'model']
     ck.count(summary['evaluations'])
     ck.cov['input_distribution'] = {k: summary[k] for k in (
-        'collections', 'collection_sizes', 'top_level_shapes', 'cutting_evaluations',
-        'collections_with_key_order_not_id_order', 'max_search_limit')}
+        'collections', 'collection_sizes', 'documents', 'top_level_shapes', 'node_kinds', 'entry_points', 'limits',
+        'outcomes', 'streams', 'cutting_evaluations', 'collections_with_key_order_not_id_order', 'max_search_limit')}
     ck.cov['fraction_limit_cuts_match_set'] = round(summary['cutting_evaluations'] / max(1, summary['evaluations']), 3)
 
-    # direct oracle on the implementation: the set-algebra reading over the harness's own documents
+    # direct oracle on the implementation: the set-algebra reading over the harness's own documents,
+    # the complexity budget counted independently, errors only where the tree has an unknown index / bad key
     for f in summary['failures']:
         ck.violation(f['class'], f['what'][:400], True, {'failing_input': f})
-    ck.ob('implementation = set-algebra reading (match set, first/last page, search restriction) on %d evaluations over %d collections'
+    ck.ob('implementation = set-algebra reading (match set, first/last page, search restriction; rejected iff over the '
+          'complexity budget; errors only for unknown index / unconvertible key) on %d evaluations over %d collections'
           % (summary['evaluations'], summary['collections']),
           summary['oracle_failures'] == 0, 'correspondence',
-          '%d failures; first: %s' % (summary['oracle_failures'], json.dumps(summary['failures'][:1])[:1500]))
+          '%d failures %s; first: %s' % (summary['oracle_failures'], json.dumps(summary['failure_classes']),
+                                         json.dumps(summary['failures'][:1])[:1500]))
     ck.ob('every dumped index lists exactly the keys/ids of the documents written (model input is the real index)',
           summary['dump_problem_count'] == 0, 'correspondence', json.dumps(summary['dump_problems'])[:1500])
+    ck.ob('no query (accepted, rejected or failing) changed the ids or any index of its collection',
+          summary['collections_whose_state_changed_during_queries'] == 0, 'correspondence',
+          '%d collections changed' % summary['collections_whose_state_changed_during_queries'])
     ck.ob('ids are uncorrelated with key order in the generated collections (%d of %d collections have an inversion)'
           % (summary['collections_with_key_order_not_id_order'], summary['collections']),
           summary['collections_with_key_order_not_id_order'] * 2 >= summary['collections'], 'correspondence', '')
+    lim = summary['limits']
+    ck.ob('generated limits cover None, 0, 1..n, n+1, MAX, MAX+1; array / missing / duplicate values, Include with duplicates, '
+          'both streams present',
+          all(lim.get(k, 0) > 0 for k in ('None', '0', '1..n', 'n+1', 'MAX', 'MAX+1'))
+          and all(v > 0 for v in summary['documents'].values())
+          and summary['node_kinds'].get('Include-with-duplicates', 0) > 0
+          and all(v > 0 for v in summary['streams'].values())
+          and all(summary['outcomes'].get(k, 0) > 0 for k in ('ok', 'EBudget', 'EIndex', 'EType')),
+          'correspondence', json.dumps({'limits': lim, 'documents': summary['documents'], 'streams': summary['streams'],
+                                        'outcomes': summary['outcomes']}))
 
-    # model vs implementation
+    # model vs implementation: one Coq case per collection (queries grouped by filter, id lists as strings);
+    # shards balanced by text size
+    if not quick:
+        # thorough: the direct oracle has judged every evaluation; the Coq model is compared on a stratified
+        # sample (the witness/budget collection, every collection larger than MAX_SEARCH_LIMIT, every third other)
+        model_rows = [r for i, r in enumerate(model_rows) if r['witness'] or r['docs'] > 400 or i % 3 == 0]
+        ck.cov['model_compared_collections'] = len(model_rows)
     cases = [{'t': [r['case'], r['obs']]} for r in model_rows]
-    res = ck.eval_cases(IMPORTS, 'mcase * mobs', 'check_case', cases, shard=2 if quick else 8, timeout=1200)
+    sizes = [len(json.dumps(c)) for c in cases]
+    nshard = 8 if quick else 16
+    order = sorted(range(len(cases)), key=lambda i: -sizes[i])
+    bins = [[] for _ in range(nshard)]
+    load = [0] * nshard
+    for i in order:
+        b = load.index(min(load))
+        bins[b].append(i)
+        load[b] += sizes[i] + 20000
+    perm = [i for b in bins for i in b]
+    bounds = []
+    res = [None] * len(cases)
+    # eval_cases shards consecutively by a fixed size; evaluate bin by bin with one shard each
+    import concurrent.futures as cf
+
+    def run_bin(k):
+        b = bins[k]
+        if not b:
+            return k, []
+        return k, ck.eval_cases(IMPORTS, 'mcase * mobs', 'check_case', [cases[i] for i in b], shard=len(b), timeout=1200 if quick else 2400,
+                                label='cases_%02d' % k)
+    with cf.ThreadPoolExecutor(max_workers=nshard) as ex:
+        for k, out_k in ex.map(run_bin, range(nshard)):
+            for i, v in zip(bins[k], out_k):
+                res[i] = v
     nq = 0
     for ci, r in enumerate(model_rows):
-        qs = r['case']['t'][1]
-        nq += len(qs)
-        for q in qs:
-            if q['t'][2] is True:
-                ck.nontrivial((ci, json.dumps(r['case']['t'][0], sort_keys=True)[:4000], json.dumps(q, sort_keys=True)))
+        groups = r['case']['t'][1]
+        for gi, g in enumerate(groups):
+            es = g['t'][1]
+            nq += len(es)
+            for ei, e in enumerate(es):
+                if r['cuts'][gi][ei] is True:
+                    ck.nontrivial((ci, r['case']['t'][0]['t'][0][:2000], json.dumps(g['t'][0], sort_keys=True)[:3000], json.dumps(e, sort_keys=True)))
     for r in model_rows[:1] + model_rows[2:3]:
-        qs = r['case']['t'][1]
-        k = min(len(qs) - 1, 1)
-        ck.sample({'collection': r['case']['t'][0], 'query': qs[k], 'observed': r['obs'][k]})
+        g = r['case']['t'][1][0]
+        ck.sample({'collection': r['case']['t'][0], 'filter': g['t'][0], 'entries': g['t'][1][:3], 'observed': r['obs'][0][:3]})
     bad = [i for i, v in enumerate(res) if v is not True]
     detail = ''
     if bad:
         i = bad[0]
         outp = ck.eval_term(IMPORTS, 'diff_case (%s, %s)' % (to_coq(model_rows[i]['case']), to_coq(model_rows[i]['obs'])))
-        m = re.search(r'\[\s*(\d+)', outp.split('=', 1)[-1]) if 'false' not in outp.split(',')[0] else None
-        detail = 'collection %d: diff_case = %s' % (i, outp[-600:])
+        detail = 'collection %d: diff_case = %s' % (i, outp[-400:])
+        m = re.search(r'\[\s*\(\s*(\d+)\s*,\s*(\d+)\s*\)', outp)
         if m:
-            k = int(m.group(1))
-            q = model_rows[i]['case']['t'][1][k]
-            mv = ck.eval_term(IMPORTS, 'run_query (mk_coll %s) %s' % (to_coq(model_rows[i]['case']['t'][0]), to_coq(q)))
-            detail += '\nquery %d: %s\nobserved: %s\nmodel: %s' % (k, json.dumps(q)[:1500], json.dumps(model_rows[i]['obs'][k])[:600], mv[-600:])
-    ck.ob('model = implementation on %d collections / %d queries (wf_coll holds of every dump)' % (len(cases), nq),
-          not bad, 'correspondence', detail)
+            gi, ei = int(m.group(1)), int(m.group(2))
+            g = model_rows[i]['case']['t'][1][gi]
+            mv = ck.eval_term(IMPORTS, 'run_entry (mk_coll %s) %s %s' % (
+                to_coq(model_rows[i]['case']['t'][0]), to_coq(g['t'][0]), to_coq(g['t'][1][ei])))
+            detail += '\nfilter: %s\nentry: %s\nobserved: %s\nmodel: %s' % (
+                json.dumps(g['t'][0])[:1200], json.dumps(g['t'][1][ei])[:300], json.dumps(model_rows[i]['obs'][gi][ei])[:600], mv[-600:])
+    ck.ob('model = implementation on %d collections / %d queries incl. error kinds and budget rejections (wf_coll holds of every dump)'
+          % (len(cases), nq), not bad, 'correspondence', detail)
     ck.finish()
